@@ -159,6 +159,9 @@ size_t multipart_extract(zckDL *dl, char *b, size_t l) {
 
         buf = zrealloc(mp->buffer, mp->buffer_len + l);
         if (!buf) {
+            /* zrealloc() has freed the stored buffer */
+            mp->buffer = NULL;
+            mp->buffer_len = 0;
             zck_log(ZCK_LOG_ERROR, "OOM in %s", __func__);
             return 0;
         }
